@@ -1,43 +1,8 @@
-(* signed division: tdivmod (truncating), idivmod / __idiv / __mod (floor) *)
-From C17 Require Import Model Model2 Proofs ProofsLib ProofsArith ProofsBits ProofsConv ProofsShift ProofsMisc ProofsDiv.
+(* signed division: tdivmod (truncating) *)
+From C17 Require Import Model Model2 Proofs ProofsLib ProofsArith ProofsBits ProofsConv ProofsShift ProofsMisc ProofsSigned ProofsDiv.
 From Coq Require Import ZifyBool.
 Local Open Scope Z_scope.
 Ltac Zify.zify_post_hook ::= Z.div_mod_to_equations.
-
-(* reading back a result known modulo W *)
-Lemma sval_of x v : wf x -> uval x = v mod Wfull -> - Half <= v < Half -> sval x = v.
-Proof. intros. apply sval_of_mod; auto. Qed.
-
-Lemma unm_val x v : wf x -> uval x = v mod Wfull -> wf (bunm x) /\ uval (bunm x) = (- v) mod Wfull.
-Proof.
-  intros Hx E. destruct (unm_correct x Hx) as (A & B). split; [exact A|]. rewrite B, E.
-  pose proof Wfull_pos. rewrite (Z.div_mod v Wfull) at 2 by lia.
-  replace (- (Wfull * (v / Wfull) + v mod Wfull)) with (- (v mod Wfull) + (- (v / Wfull)) * Wfull) by ring.
-  rewrite Z.mod_add by lia. reflexivity.
-Qed.
-Lemma dec_val x v : wf x -> uval x = v mod Wfull -> wf (bdec x) /\ uval (bdec x) = (v - 1) mod Wfull.
-Proof.
-  intros Hx E. destruct (dec_correct x Hx) as (A & B). split; [exact A|]. rewrite B, E.
-  pose proof Wfull_pos. rewrite Zminus_mod_idemp_l. reflexivity.
-Qed.
-Lemma add_val x y u v : wf x -> wf y -> uval x = u mod Wfull -> uval y = v mod Wfull ->
-  wf (badd x y) /\ uval (badd x y) = (u + v) mod Wfull.
-Proof.
-  intros Hx Hy E1 E2. destruct (add_correct x y Hx Hy) as (A & B). split; [exact A|]. rewrite B, E1, E2.
-  pose proof Wfull_pos. rewrite <- Z.add_mod by lia. reflexivity.
-Qed.
-Lemma self_val x : wf x -> uval x = uval x mod Wfull.
-Proof. intros Hx. pose proof (wf_range x Hx). symmetry. apply Z.mod_small. lia. Qed.
-
-Lemma beq_min x : wf x -> beq x bint_mininteger = (sval x =? - Half).
-Proof.
-  intros Hx. destruct mininteger_correct as (Wm & Um & Sm). fold Half in Um, Sm.
-  pose proof (eq_correct x bint_mininteger Hx Wm) as E. rewrite Um in E.
-  pose proof (wf_range x Hx). destruct Half_facts as (EH & H63). unfold sval. fold Half.
-  destruct (beq x bint_mininteger) eqn:B.
-  - assert (uval x = Half) by (apply E; reflexivity). destruct (uval x <? Half) eqn:E2; unfold two63 in *; lia.
-  - assert (uval x <> Half) by (intro C; apply E in C; congruence). destruct (uval x <? Half) eqn:E2; unfold two63 in *; lia.
-Qed.
 
 (* ---- tdivmod ---- *)
 Theorem tdivmod_correct x y : wf x -> wf y ->
@@ -103,133 +68,7 @@ Proof.
     destruct Q as (Q1 & Q2). destruct R as (R1 & R2). rewrite ?isneg_correct by auto. fold sx sy. auto.
 Qed.
 
-(* ---- idivmod / __idiv / __mod ---- *)
-Lemma floor_div_range H s t : 0 < H -> - H <= s < H -> - H <= t < H -> t <> 0 -> ~ (s = - H /\ t = -1) ->
-  - H <= s / t < H.
-Proof.
-  intros HH Hs Ht Hnz Hno. pose proof (Z.div_mod s t Hnz) as E.
-  destruct (Z_lt_le_dec 0 t) as [L|L].
-  - pose proof (Z.mod_pos_bound s t L) as M. set (q := s / t) in *. set (r := s mod t) in *. clearbody q r.
-    split.
-    + destruct (Z_le_dec (- H) q); [lia|exfalso]. assert (t * (q + 1) <= t * (- H)) by (apply Z.mul_le_mono_nonneg_l; lia). nia.
-    + destruct (Z_lt_dec q H); [lia|exfalso]. assert (t * H <= t * q) by (apply Z.mul_le_mono_nonneg_l; lia). nia.
-  - pose proof (Z.mod_neg_bound s t ltac:(lia)) as M. set (q := s / t) in *. set (r := s mod t) in *. clearbody q r.
-    split.
-    + destruct (Z_le_dec (- H) q); [lia|exfalso]. assert (t * (- H) <= t * (q + 1)) by (apply Z.mul_le_mono_nonpos_l; lia). nia.
-    + destruct (Z_lt_dec q H); [lia|exfalso]. assert (t * q <= t * H) by (apply Z.mul_le_mono_nonpos_l; lia).
-      destruct (Z.eq_dec t (-1)); [subst t; lia|]. assert (t <= -2) by lia.
-      assert (t * H <= -2 * H) by nia. nia.
-Qed.
-
-Lemma floor_mod_range H s t : t <> 0 -> - H <= t < H -> - H <= s mod t < H.
-Proof.
-  intros Hnz Ht.
-  destruct (Z_lt_le_dec 0 t) as [L|L]; [pose proof (Z.mod_pos_bound s t L) | pose proof (Z.mod_neg_bound s t ltac:(lia))];
-    set (m := s mod t) in *; clearbody m; lia.
-Qed.
-
-(* the common computation of idivmod and __idiv, as a relation between the inputs and the
-   floor quotient / remainder *)
-Lemma floor_cases sx sy a b : a = Z.abs sx -> b = Z.abs sy -> sy <> 0 ->
-  let q0 := a / b in let r0 := a mod b in
-  (sx < 0 -> 0 < sy -> r0 <> 0 -> sx / sy = - q0 - 1 /\ sx mod sy = - r0 + sy) /\
-  (sx < 0 -> 0 < sy -> r0 = 0 -> sx / sy = - q0 /\ sx mod sy = 0) /\
-  (0 <= sx -> sy < 0 -> r0 <> 0 -> sx / sy = - q0 - 1 /\ sx mod sy = r0 + sy) /\
-  (0 <= sx -> sy < 0 -> r0 = 0 -> sx / sy = - q0 /\ sx mod sy = 0) /\
-  (sx < 0 -> sy < 0 -> sx / sy = q0 /\ sx mod sy = - r0) /\
-  (0 <= sx -> 0 < sy -> sx / sy = q0 /\ sx mod sy = r0).
-Proof.
-  intros Ea Eb Hnz. cbn zeta. assert (Hb : 0 < b) by lia.
-  pose proof (Z.div_mod a b ltac:(lia)) as E. pose proof (Z.mod_pos_bound a b Hb) as M.
-  set (q0 := a / b) in *. set (r0 := a mod b) in *. clearbody q0 r0.
-  repeat split; intros.
-  - symmetry; apply Z.div_unique with (- r0 + sy); [left; lia | nia].
-  - symmetry; apply Z.mod_unique with (- q0 - 1); [left; lia | nia].
-  - symmetry; apply Z.div_unique with 0; [left; lia | nia].
-  - symmetry; apply Z.mod_unique with (- q0); [left; lia | nia].
-  - symmetry; apply Z.div_unique with (r0 + sy); [right; lia | nia].
-  - symmetry; apply Z.mod_unique with (- q0 - 1); [right; lia | nia].
-  - symmetry; apply Z.div_unique with 0; [right; lia | nia].
-  - symmetry; apply Z.mod_unique with (- q0); [right; lia | nia].
-  - symmetry; apply Z.div_unique with (- r0); [right; lia | nia].
-  - symmetry; apply Z.mod_unique with q0; [right; lia | nia].
-  - symmetry; apply Z.div_unique with r0; [left; lia | nia].
-  - symmetry; apply Z.mod_unique with q0; [left; lia | nia].
-Qed.
-
-Theorem idivmod_correct x y : wf x -> wf y ->
-  let sx := sval x in let sy := sval y in
-  (sy = 0 -> idivmod x y = Err EDivZero /\ bidiv x y = Err EDivZero /\ bmod x y = Err EDivZero) /\
-  (sy <> 0 -> exists q r, idivmod x y = Ok (q, r) /\ bidiv x y = Ok q /\ bmod x y = Ok r /\ wf q /\ wf r /\
-     uval q = (sx / sy) mod Wfull /\ sval r = sx mod sy /\
-     (~ (sx = - (Wfull / 2) /\ sy = -1) -> sval q = sx / sy)).
-Proof.
-  intros Hx Hy. cbn zeta. fold Half. unfold bmod, bidiv, idivmod.
-  pose proof (sval_bounds x Hx) as Bx. pose proof (sval_bounds y Hy) as By.
-  destruct Half_facts as (EH & H63). unfold two63 in H63.
-  destruct (absval x Hx) as (Wa & Va). destruct (absval y Hy) as (Wb & Vb). cbn zeta in *.
-  destruct (udivmod_correct _ _ Wa Wb) as (D0 & D1). rewrite Va, Vb in *.
-  set (sx := sval x) in *. set (sy := sval y) in *.
-  split.
-  - intros Hz. rewrite D0 by lia. auto.
-  - intros Hnz. destruct (D1 ltac:(lia)) as (q0 & r0 & E & Wq & Wr & Vq & Vr). rewrite E.
-    rewrite !isneg_correct by auto. fold sx sy.
-    rewrite (iszero_correct r0 Wr), Vr.
-    set (a := Z.abs sx) in *. set (b := Z.abs sy) in *.
-    assert (Hb : 0 < b) by lia. assert (Ha : 0 <= a <= Half) by lia.
-    pose proof (Z.mod_pos_bound a b Hb) as Hr0.
-    assert (Hq0 : 0 <= a / b <= a) by (split; [apply Z.div_pos; lia | apply Z.div_le_upper_bound; nia]).
-    destruct (floor_cases sx sy a b eq_refl eq_refl Hnz) as (F1 & F2 & F3 & F4 & F5 & F6). cbn zeta in *.
-    assert (Vq' : uval q0 = (a / b) mod Wfull) by (rewrite Vq; symmetry; apply Z.mod_small; lia).
-    assert (Vr' : uval r0 = (a mod b) mod Wfull) by (rewrite Vr; symmetry; apply Z.mod_small; lia).
-    assert (Vy : uval y = sy mod Wfull) by (apply sval_mod; auto).
-    (* a result (q, r) with the right values mod W finishes the proof *)
-    assert (Fin : forall q r, wf q -> wf r -> uval q = (sx / sy) mod Wfull -> uval r = (sx mod sy) mod Wfull ->
-              wf q /\ wf r /\ uval q = (sx / sy) mod Wfull /\ sval r = sx mod sy /\
-              (~ (sx = - Half /\ sy = -1) -> sval q = sx / sy)).
-    { intros q r Wq1 Wr1 Uq Ur. split; [auto|]. split; [auto|]. split; [auto|]. split.
-      - apply sval_of; auto. apply floor_mod_range; auto.
-      - intros Hno. apply sval_of; auto. apply floor_div_range; auto. clear - H63. lia. }
-    set (qv := a / b) in *. set (rv := a mod b) in *. set (fq := sx / sy) in *. set (fr := sx mod sy) in *.
-    clearbody qv rv fq fr.
-    destruct (sx <? 0) eqn:S1; destruct (sy <? 0) eqn:S2; cbn [Bool.eqb negb andb].
-    + (* both negative *)
-      destruct (F5 ltac:(lia) ltac:(lia)) as (Fq & Fr).
-      destruct (unm_val r0 _ Wr Vr') as (A & B).
-      eexists; eexists; split; [reflexivity|]. split; [reflexivity|]. split; [reflexivity|].
-      apply Fin; auto; rewrite ?Fq, ?Fr; auto.
-    + (* x negative, y positive *)
-      destruct (unm_val q0 _ Wq Vq') as (A1 & B1).
-      destruct (rv =? 0) eqn:Ez; cbn [negb].
-      * destruct (F2 ltac:(lia) ltac:(lia) ltac:(lia)) as (Fq & Fr).
-        eexists; eexists; split; [reflexivity|]. split; [reflexivity|]. split; [reflexivity|].
-        apply Fin; auto; rewrite ?Fq, ?Fr; auto. rewrite Vr'. f_equal. lia.
-      * destruct (F1 ltac:(lia) ltac:(lia) ltac:(lia)) as (Fq & Fr).
-        destruct (dec_val _ _ A1 B1) as (A2 & B2).
-        destruct (unm_val r0 _ Wr Vr') as (A3 & B3).
-        destruct (add_val _ y _ _ A3 Hy B3 Vy) as (A4 & B4).
-        eexists; eexists; split; [reflexivity|]. split; [reflexivity|]. split; [reflexivity|].
-        apply Fin; auto; rewrite ?Fq, ?Fr; auto.
-    + (* x non-negative, y negative *)
-      destruct (unm_val q0 _ Wq Vq') as (A1 & B1).
-      destruct (rv =? 0) eqn:Ez; cbn [negb].
-      * destruct (F4 ltac:(lia) ltac:(lia) ltac:(lia)) as (Fq & Fr).
-        eexists; eexists; split; [reflexivity|]. split; [reflexivity|]. split; [reflexivity|].
-        apply Fin; auto; rewrite ?Fq, ?Fr; auto. rewrite Vr'. f_equal. lia.
-      * destruct (F3 ltac:(lia) ltac:(lia) ltac:(lia)) as (Fq & Fr).
-        destruct (dec_val _ _ A1 B1) as (A2 & B2).
-        destruct (add_val r0 y _ _ Wr Hy Vr' Vy) as (A4 & B4).
-        eexists; eexists; split; [reflexivity|]. split; [reflexivity|]. split; [reflexivity|].
-        apply Fin; auto; rewrite ?Fq, ?Fr; auto.
-    + (* both non-negative *)
-      destruct (F6 ltac:(lia) ltac:(lia)) as (Fq & Fr).
-      eexists; eexists; split; [reflexivity|]. split; [reflexivity|]. split; [reflexivity|].
-      apply Fin; auto; rewrite ?Fq, ?Fr; auto.
-Qed.
-
-Example sdiv_example :
-  idivmod (frominteger (-7)) (frominteger 2) = Ok (frominteger (-4), frominteger 1) /\
+Example tdiv_example :
   tdivmod (frominteger (-7)) (frominteger 2) = Ok (frominteger (-3), frominteger (-1)) /\
-  tdivmod bint_mininteger (frominteger (-1)) = Err EDivOverflow /\
-  idivmod bint_mininteger (frominteger (-1)) = Ok (bint_mininteger, bint_zero).
+  tdivmod bint_mininteger (frominteger (-1)) = Err EDivOverflow.
 Proof. repeat split; vm_compute; reflexivity. Qed.
